@@ -105,13 +105,29 @@ def run(res, tier, seed):
     first = None
     stats = {"programs": len(cases), "files": 0, "max_depth_files": 0, "diagnostics_in_included_files": 0,
              "fault_cases": 0, "cli_cases": 0}
+    # locations the real code picks by hash-table order (F-14, F-28) are not functions of the
+    # program; the model lists the alternatives for the pasted file. Such items are left out on
+    # both sides (by title and original line).
+    def ambiguous_of(j):
+        amb = set()
+        for ml in models[0][2 * j] + models[1][2 * j]:
+            m = re.search(r" alts=\[(\S*)\]", ml)
+            if ml.startswith("RUN ") and m:
+                for alt in m.group(1).split(","):
+                    loc = parse_loc(alt)
+                    if loc:
+                        amb.add((unhx(field(ml, "title")), loc["sl"]))
+        return amb
     for j, (s, files, mapping) in enumerate(cases):
         flat, split = impl[2 * j], impl[2 * j + 1]
         order = import_order(files)
         stats["files"] += len(files)
         stats["max_depth_files"] = max(stats["max_depth_files"], len(files))
-        ka = diag_keys(flat, ["flat.s"])
-        kb = diag_keys(split, order, mapping)
+        amb = ambiguous_of(j)
+        ka = [k for k in diag_keys(flat, ["flat.s"]) if (k[0], k[2]) not in amb]
+        kb = [k for k in diag_keys(split, order, mapping) if (k[0], k[2]) not in amb]
+        if amb:
+            stats["order_dependent_locations_left_out"] = stats.get("order_dependent_locations_left_out", 0) + 1
         stats["diagnostics_in_included_files"] += sum(
             1 for l in split if l.startswith("RUN ") and not field(l, "at").endswith("@0"))
         if ka != kb and first is None:
